@@ -1,5 +1,6 @@
 import Emboss.Model.Bounds
 import Emboss.Model.CppArith
+import Emboss.Model.ExprType
 import Driver.Util
 open Emboss.Bounds Driver
 
@@ -17,6 +18,7 @@ Line protocol of `model_c05` (one op per line, one answer per line):
   SIG <atype>…           template arguments `IntermediateT ResultT ArgT…` of one generated call,
                          from the annotations of result :: operands (`raise` = generator raises)
   SIGS <expr>            `<Op>:<IntermediateT>,<ResultT>,<ArgT>…` of every emitted call, preorder
+  TYOF <expr>            the typing discipline `tyOf`: int | bool | enum | ill-typed
 
 atype:  i:<min>:<max>:<modulus>:<mv>  (inf, -inf)  |  b:T b:F b:U  |  e:<int> e:U
 cv:     n (None) | i<int> | bT | bF | e<int> | x (raised)
@@ -280,6 +282,12 @@ def handle (line : String) : String :=
       | some l => "sigs " ++ " ".intercalate (l.map fun (k, it, ns) =>
           showOpKind k ++ ":" ++ ",".intercalate (showTName it :: ns.map showTName))
       | none => "raise"
+    | none => "bad-op"
+  | "TYOF" =>
+    match (parseTree rest).bind exprOf with
+    | some e =>
+      match tyOf e with
+      | some .int => "int" | some .bool => "bool" | some .enum => "enum" | none => "ill-typed"
     | none => "bad-op"
   | "CPPEVAL" =>
     match rest.splitOn ";" with
